@@ -1933,6 +1933,8 @@ class Transaction(object):
         lock_script = to_bytes(lock_script)
         if output_n is None:
             output_n = len(self.outputs)
+        if isinstance(value, Value):
+            value = value.value_sat
         if not float(value).is_integer():
             raise TransactionError("Output must be of type integer and contain no decimals")
         if lock_script.startswith(b'\x6a'):
